@@ -8,9 +8,9 @@
 using namespace vf;
 
 enum SK { S_CHIPS, S_EMU, S_LFOEN, S_LFOFREQ, S_CHIPTYPE, S_VOLMODEL, S_ALLOC, S_ARP, S_DEVID, S_SCALEMOD, S_FULLBRIGHT, S_SOFTPAN, S_PCMRATE, S_HOOK,
-          S_RESET, S_BANK, S_MUSIC, S_BADBANKID, S_BADTRACK, S_BADCHANNEL, S_NOTE, S_NK };
+          S_RESET, S_BANK, S_MUSIC, S_BADBANKID, S_BADTRACK, S_BADCHANNEL, S_NOTE, S_LOOPEN, S_LOOPCOUNT, S_TEMPO, S_HOOKSONLY, S_LOGVOL, S_NK };
 static const char *const sname[S_NK] = {"chips", "emu", "lfoen", "lfofreq", "chiptype", "volmodel", "alloc", "arp", "devid", "scalemod", "fullbright", "softpan", "pcmrate", "hook",
-                                        "reset", "bank", "music", "badbankid", "badtrack", "badchannel", "note"};
+                                        "reset", "bank", "music", "badbankid", "badtrack", "badchannel", "note", "loopen", "loopcount", "tempo", "hooksonly", "logvol"};
 struct SOp { int kind = 0; long long a = 0; int b = 0; };
 static std::string ser(const std::vector<SOp> &v) { std::ostringstream o; for(const SOp &p : v) o << sname[p.kind] << " " << p.a << " " << p.b << "\n"; return o.str(); }
 static std::vector<SOp> deser(const std::string &s) {
@@ -42,7 +42,10 @@ struct Model {
     bool hook[5] = {false, false, false, false, false}; int loop_variant = 0;
     int bank_lfo = 0, bank_chip = 0; bool bank_loaded = false; uint64_t bank_fp = 0;
     bool vgm_seen = false;
+    // sequencer-side settings (no public getters: read from the instance) and the deprecated logarithmic-volumes switch
+    int loopen = 0, loopcount = -1, hooksonly = 0; double tempo = 1.0; int logvol_model = -1; // logvol_model: volume model in force since opn2_setLogarithmicVolumes(non-zero), -1 = not in force
 };
+static const double kTempo[] = {1.0, 0.5, 2.0, 0.25, 0.0, -1.0, 1e-3, 100.0};
 
 static uint64_t bank_fingerprint(OPN2_MIDIPlayer *d) {
     uint64_t h = 1469598103934665603ULL; OPN2_Bank b; int r = opn2_getFirstBank(d, &b);
@@ -66,7 +69,7 @@ static void check_getters(const Inst &I, const Model &m, const char *when, size_
     int want_lfoen = m.lfoen < 0 ? ((m.bank_lfo & 8) ? 1 : 0) : (m.lfoen ? 1 : 0);
     int want_lfofreq = m.lfofreq < 0 ? (m.bank_lfo & 7) : m.lfofreq;
     int want_chip = m.chiptype < 0 ? m.bank_chip : m.chiptype;
-    int want_vol = m.volmodel == 0 ? OPNMIDI_VolumeModel_Generic : m.volmodel;
+    int want_vol = m.logvol_model >= 0 ? m.logvol_model : (m.volmodel == 0 ? OPNMIDI_VolumeModel_Generic : m.volmodel);
     VCHECK(opn2_getLfoEnabled(d) == want_lfoen, "step %zu (%s): getLfoEnabled %d, expected %d (override %d, bank default %d)", step, when, opn2_getLfoEnabled(d), want_lfoen, m.lfoen, (m.bank_lfo & 8) ? 1 : 0);
     VCHECK(opn2_getLfoFrequency(d) == want_lfofreq, "step %zu (%s): getLfoFrequency %d, expected %d (override %d, bank default %d)", step, when, opn2_getLfoFrequency(d), want_lfofreq, m.lfofreq, m.bank_lfo & 7);
     VCHECK(opn2_getChipType(d) == want_chip, "step %zu (%s): getChipType %d, expected %d (override %d, bank default %d)", step, when, opn2_getChipType(d), want_chip, m.chiptype, m.bank_chip);
@@ -77,6 +80,9 @@ static void check_getters(const Inst &I, const Model &m, const char *when, size_
     VCHECK((p->m_synth->m_scaleModulators ? 1 : 0) == m.scalemod && (p->m_setup.fullRangeBrightnessCC74 ? 1 : 0) == m.fullbright && (p->m_synth->m_softPanning ? 1 : 0) == m.softpan && (p->m_synth->m_runAtPcmRate ? 1 : 0) == m.pcmrate,
            "step %zu (%s): boolean setting lost (scaleModulators %d/%d fullRangeBrightness %d/%d softPan %d/%d runAtPcmRate %d/%d)", step, when,
            (int)p->m_synth->m_scaleModulators, m.scalemod, (int)p->m_setup.fullRangeBrightnessCC74, m.fullbright, (int)p->m_synth->m_softPanning, m.softpan, (int)p->m_synth->m_runAtPcmRate, m.pcmrate);
+    VCHECK((p->m_sequencer->m_loopEnabled ? 1 : 0) == m.loopen && p->m_sequencer->m_loopCount == m.loopcount && p->m_sequencer->m_tempoMultiplier == m.tempo,
+           "step %zu (%s): sequencer setting lost (loop enabled %d/%d, loop count %d/%d, tempo multiplier %g/%g)", step, when, (int)p->m_sequencer->m_loopEnabled, m.loopen, p->m_sequencer->m_loopCount, m.loopcount, p->m_sequencer->m_tempoMultiplier, m.tempo);
+    if(m.emu != EMU_VGM) VCHECK((p->m_sequencer->m_loopHooksOnly ? 1 : 0) == m.hooksonly, "step %zu (%s): 'loop hooks only' is %d, last set to %d", step, when, (int)p->m_sequencer->m_loopHooksOnly, m.hooksonly);
     // registered callbacks
     VCHECK((p->m_sequencerInterface->onEvent != NULL) == m.hook[0], "step %zu (%s): raw event hook %s", step, when, m.hook[0] ? "was dropped" : "appeared");
     VCHECK((p->hooks.onNote != NULL) == m.hook[1], "step %zu (%s): note hook %s", step, when, m.hook[1] ? "was dropped" : "appeared");
@@ -100,11 +106,11 @@ static bool apply(Inst &I, Model *m, const SOp &p, bool &is_churn) {
     case S_LFOEN: opn2_setLfoEnabled(d, (int)p.a); if(m) m->lfoen = (int)p.a; return false;
     case S_LFOFREQ: opn2_setLfoFrequency(d, (int)p.a); if(m) m->lfofreq = (int)p.a; return false;
     case S_CHIPTYPE: opn2_setChipType(d, (int)p.a); if(m && p.a >= -1 && p.a <= 1) m->chiptype = (int)p.a; return !(p.a >= -1 && p.a <= 1);
-    case S_VOLMODEL: opn2_setVolumeRangeModel(d, (int)p.a); if(m && p.a >= 0 && p.a <= 5) m->volmodel = (int)p.a; return !(p.a >= 0 && p.a <= 5);
+    case S_VOLMODEL: opn2_setVolumeRangeModel(d, (int)p.a); if(m && p.a >= 0 && p.a <= 5) { m->volmodel = (int)p.a; m->logvol_model = -1; } return !(p.a >= 0 && p.a <= 5);
     case S_ALLOC: opn2_setChannelAllocMode(d, (int)p.a); if(m) m->alloc = (int)p.a; return false;
     case S_ARP: opn2_setAutoArpeggio(d, (int)p.a); if(m) m->arp = p.a ? 1 : 0; return false;
     case S_DEVID: { int r = opn2_setDeviceIdentifier(d, (unsigned)p.a); bool ok = (unsigned)p.a <= 15; VCHECK((r == 0) == ok, "setDeviceIdentifier(%lld) returned %d", p.a, r); if(ok && m) m->devid = (int)p.a; return !ok; }
-    case S_SCALEMOD: opn2_setScaleModulators(d, (int)p.a); if(m) m->scalemod = p.a ? 1 : 0; return false;
+    case S_SCALEMOD: opn2_setScaleModulators(d, (int)p.a); if(m) m->scalemod = p.a == 0 ? 0 : p.a == 1 ? 1 : (I.play()->m_synth->m_scaleModulators ? 1 : 0) /* -1 = 'bank default': what is in force now must stay in force */; return false;
     case S_FULLBRIGHT: opn2_setFullRangeBrightness(d, (int)p.a); if(m) m->fullbright = p.a ? 1 : 0; return false;
     case S_SOFTPAN: opn2_setSoftPanEnabled(d, (int)p.a); if(m) m->softpan = p.a ? 1 : 0; return false;
     case S_PCMRATE: { int r = opn2_setRunAtPcmRate(d, (int)p.a); VCHECK(r == 0, "setRunAtPcmRate returned %d", r); if(m) m->pcmrate = p.a ? 1 : 0; return false; }
@@ -127,7 +133,7 @@ static bool apply(Inst &I, Model *m, const SOp &p, bool &is_churn) {
         bool ok = (p.a % 4) < 2;
         VCHECK((r == 0) == ok, "openBankData(image %lld) returned %d", p.a % 4, r);
         if(!ok) VCHECK(opn2_errorInfo(d)[0] != 0, "rejected bank left no error text");
-        if(ok && m) { m->bank_lfo = (p.a % 4) == 0 ? 0x0B : 0x05; m->bank_chip = (p.a % 4) == 0 ? 1 : 0; m->lfoen = -1; m->lfofreq = -1; m->chiptype = -1; m->volmodel = 0; m->bank_loaded = true; m->bank_fp = bank_fingerprint(d); }
+        if(ok && m) { m->bank_lfo = (p.a % 4) == 0 ? 0x0B : 0x05; m->bank_chip = (p.a % 4) == 0 ? 1 : 0; m->lfoen = -1; m->lfofreq = -1; m->chiptype = -1; m->volmodel = 0; if(m->logvol_model >= 0) { int now = opn2_getVolumeRangeModel(d); m->logvol_model = (now == OPNMIDI_VolumeModel_Generic) ? -1 : now; } /* the statement does not say whether a bank load also ends the deprecated logarithmic-volumes switch: either outcome, but stable from here on */ m->bank_loaded = true; m->bank_fp = bank_fingerprint(d); }
         is_churn = ok; return !ok;
     }
     case S_MUSIC: {
@@ -145,6 +151,15 @@ static bool apply(Inst &I, Model *m, const SOp &p, bool &is_churn) {
     case S_BADTRACK: { int r = opn2_setTrackOptions(d, opn2_trackCount(d) + (size_t)p.b, OPNMIDI_TrackOption_Off); VCHECK(r == -1, "setTrackOptions on a non-existing track returned %d", r); return true; }
     case S_BADCHANNEL: { int r = opn2_setChannelEnabled(d, 16 + (size_t)p.b, 0); VCHECK(r == -1, "setChannelEnabled(>=16) returned %d", r); return true; }
     case S_NOTE: opn2_rt_noteOn(d, 0, (OPN2_UInt8)(60 + p.b % 12), 100); return false;
+    case S_LOOPEN: opn2_setLoopEnabled(d, (int)p.a); if(m) m->loopen = p.a ? 1 : 0; return false;
+    case S_LOOPCOUNT: opn2_setLoopCount(d, (int)p.a); if(m) m->loopcount = I.play()->m_sequencer->m_loopCount /* no getter and an internal encoding: what the setter put in force must stay in force */; return false;
+    case S_TEMPO: { double t = kTempo[(size_t)p.a % 8]; opn2_setTempo(d, t); if(t > 0 && m) m->tempo = t; return !(t > 0); } // documented: values <= 0 are ignored
+    case S_HOOKSONLY: opn2_setLoopHooksOnly(d, (int)p.a); if(m) m->hooksonly = p.a ? 1 : 0; return false;
+    case S_LOGVOL: { // deprecated switch: whatever volume model it puts in force must stay in force until the model is set again / a bank is loaded
+        bool usable = !m || (m->volmodel == 0 && m->logvol_model < 0) || p.a != 0; (void)usable;
+        opn2_setLogarithmicVolumes(d, (int)p.a);
+        if(m) m->logvol_model = p.a ? opn2_getVolumeRangeModel(d) : -1;
+        return false; }
     }
     return false;
 }
@@ -195,7 +210,7 @@ static void run(const std::vector<SOp> &ops, Info &info) {
             apply(B, NULL, p, churn2);
             check_getters(A, m, sname[p.kind], i + 1);
             if(churn && pending_rejected) { info.rejected_then_reset++; pending_rejected = false; }
-            if(p.kind <= S_PCMRATE) since_accept = 0; else if(churn && since_accept >= 0) { if(++since_accept >= 2) info.accepted_then_churn++; }
+            if(p.kind <= S_PCMRATE || p.kind >= S_LOOPEN) since_accept = 0; else if(churn && since_accept >= 0) { if(++since_accept >= 2) info.accepted_then_churn++; }
         }
     }
     // audible behaviour: the instance that saw the rejected calls must render the probe phrase exactly like the twin that did not
@@ -209,8 +224,8 @@ static void run(const std::vector<SOp> &ops, Info &info) {
 
 static rc::Gen<SOp> genOp() {
     using namespace rc;
-    auto kind = gen::weightedElement<int>({{6, S_CHIPS}, {6, S_EMU}, {3, S_LFOEN}, {3, S_LFOFREQ}, {4, S_CHIPTYPE}, {4, S_VOLMODEL}, {2, S_ALLOC}, {2, S_ARP}, {4, S_DEVID}, {1, S_SCALEMOD}, {1, S_FULLBRIGHT},
-                                           {1, S_SOFTPAN}, {1, S_PCMRATE}, {5, S_HOOK}, {5, S_RESET}, {6, S_BANK}, {6, S_MUSIC}, {1, S_BADBANKID}, {1, S_BADTRACK}, {1, S_BADCHANNEL}, {2, S_NOTE}});
+    auto kind = gen::weightedElement<int>({{6, S_CHIPS}, {6, S_EMU}, {3, S_LFOEN}, {3, S_LFOFREQ}, {4, S_CHIPTYPE}, {4, S_VOLMODEL}, {2, S_ALLOC}, {2, S_ARP}, {4, S_DEVID}, {2, S_SCALEMOD}, {1, S_FULLBRIGHT},
+                                           {1, S_SOFTPAN}, {1, S_PCMRATE}, {5, S_HOOK}, {5, S_RESET}, {6, S_BANK}, {6, S_MUSIC}, {1, S_BADBANKID}, {1, S_BADTRACK}, {1, S_BADCHANNEL}, {2, S_NOTE}, {2, S_LOOPEN}, {2, S_LOOPCOUNT}, {2, S_TEMPO}, {2, S_HOOKSONLY}, {1, S_LOGVOL}});
     return gen::map(gen::tuple(kind, rng<int>(0, 1000), rng<int>(0, 1000)), [](std::tuple<int, int, int> t) {
         int k = std::get<0>(t), a = std::get<1>(t), b = std::get<2>(t); SOp p; p.kind = k; p.b = b % 3;
         switch(k) {
@@ -224,6 +239,9 @@ static rc::Gen<SOp> genOp() {
         case S_DEVID: { static const long long v[] = {0, 1, 7, 15, 16, 255, 3, 9}; p.a = v[a % 8]; break; }
         case S_HOOK: p.a = a % 5; p.b = b % 3; break;
         case S_BANK: case S_MUSIC: p.a = a % 4; break;
+        case S_SCALEMOD: { static const long long v[] = {0, 1, -1, 1, 0, -1}; p.a = v[a % 6]; break; }
+        case S_LOOPCOUNT: p.a = (a % 6) - 1; break;
+        case S_TEMPO: p.a = a % 8; break;
         default: p.a = a & 1; break;
         }
         return p;
